@@ -1,3 +1,4 @@
 import Props.C17
 import Props.C18
 import Props.C09
+import Props.C06
